@@ -40,7 +40,7 @@ class Site:
 def by_carrier(errors, cands):
     out = set()
     for e in errors:
-        for m in re.finditer(r'"c(\d+)"', e):
+        for m in re.finditer(r'(?<![A-Za-z0-9_.-])c(\d+)(?![A-Za-z0-9_-])', e):
             out.add(int(m.group(1)))
     return out
 
@@ -57,9 +57,13 @@ def by_text(errors, cands):
 def by_dec_index(errors, cands):
     out = set()
     for e in errors:
-        m = re.search(r"(?:decorators: |StepCompileDecorators: )#?(\d+) ", e)
+        m = re.search(r"(?:decorators: |StepCompileDecorators: )#?(\d+) ", e) or re.search(r"#(\d+)\b", e)
         if m:
             out.add(int(m.group(1)))
+        else:            # another wording: fall back to the candidate text itself
+            for i, c in enumerate(cands):
+                if len(c) >= 3 and c in e:
+                    out.add(i)
     return out
 
 
@@ -188,8 +192,8 @@ def run_c11(tier):
                                         "errors": core.Report(rs["stdout"]).errors[:3]},
                                        tags={"site": site.name, "model_ok": m["ok"], "first": m["s"][0], "class": m.get("cls", ""),
                                              "deref": "ST" in m["s"]})
-                        elif rejected:
-                            # rejected alone but not named in the batch: the diagnostic does not name the key
+                        elif rejected and not any(t in e for e in core.Report(rs["stdout"]).errors):
+                            # rejected, and the diagnostic does not name the key at all
                             v.disagree("violation-not-named-in-batch", {"site": site.name, "candidate": t}, {"errors": core.Report(rs["stdout"]).errors[:3]},
                                        tags={"site": site.name})
                 stats[site.name] = {"position": pos, "candidates": sum(len(b) for b in batches), "tool_runs": len(batches), "resolved_alone": len(suspects)}
